@@ -7,16 +7,21 @@ final `SUMMARY` line.
 -/
 import Drv.Codec
 import Drv.Side
+import Drv.Send
 open GoStd Driver
 
 structure DrvState where
   side : SideState := {}
+  send : SendState := {}
 
 def execOp (st : DrvState) (toks : List String) : DrvState × String :=
   match toks with
   | "std" :: op :: args => (st, execStd op args)
   | "codec" :: op :: args => (st, execCodec op args)
   | "msg" :: op :: args => (st, execMsg op args)
+  | "send" :: op :: args =>
+    let (s', out) := execSend st.send op args
+    ({ st with send := s' }, out)
   | stream :: op :: args =>
     if ["rr", "route", "res", "pins", "pool"].contains stream then
       let (s', out) := execSide st.side stream op args
@@ -27,6 +32,9 @@ def execOp (st : DrvState) (toks : List String) : DrvState × String :=
 /-- stateful oracles (observers) fed with the implementation's output -/
 def specStateful (st : DrvState) (toks impl : List String) : DrvState × List String :=
   match toks with
+  | "send" :: op :: _ =>
+    let (s', errs) := specSend st.send op impl
+    ({ st with send := s' }, errs)
   | stream :: op :: args =>
     if ["rr", "route", "res", "pins", "pool"].contains stream then
       let (s', errs) := specSide st.side stream op args impl
